@@ -136,6 +136,18 @@ def job_tree(ctx, jr, tree, W, canon):
 
 # ---------------------------------------------------------------------- native replay: real files vs pasted reference
 def replayer(v):
+    if v.get('kind') in ('lemma', 'c01_struct'):
+        # confirmation of a failed lemma: a panel of include trees with concrete lines, natively parsed and compared with the paste reference
+        last = None
+        for tree, files in TREES.items():
+            if tree == 'absolute': continue
+            fc = {}
+            for path, entries in files.items():
+                fc[path] = '\n'.join(('c%d x "y z"' % i) if en is None else '!include_files ' + ' '.join(en) for i, en in enumerate(entries)) + '\n'
+            got = replayer(dict(kind='c14', tree=tree, files=fc, entry=MAIN[tree]))
+            if got[0]: v['native_tree'] = tree; return (True, 'include tree %s: %s' % (tree, got[1]))
+            if got[0] is False: last = got
+        return (False, 'the panel of include trees is parsed as the pasted text natively') if last else (None, 'panel not replayable')
     files = {k.lstrip('/'): c for k, c in v['files'].items()}
     entry = v['entry'].lstrip('/')
     out = H.replay(dict(mode='parse_file', files=files, entry=entry)); v['native'] = out
@@ -181,7 +193,10 @@ def main(tier, seed):
         for canon in (True, False):
             if tier == 'quick' and not canon and t in ('depth3', 'twice', 'absolute'): continue
             chk.job(job_tree, '%s/%s' % (t, 'canon' if canon else 'nocanon'), tree=t, W=W, canon=canon)
-    chk.bounds = dict(include_trees=list(TREES), free_line_chars=W, canonicalize='both outcomes')
+    chk.job(job_include_lemmas, 'lemma/include functions')
+    from .line_lemmas import job_parse_lines
+    chk.job(job_parse_lines, 'lemma/parse_lines', NL=3 if tier == 'quick' else 5, K=3 if tier == 'quick' else 5, part='C14')
+    chk.bounds = dict(lemmas='include loop (25 includer/written-path pairs, arbitrary collected list and parse_file result), directive dispatch, parse_file, parse_text_with_source_file, parse_lines (DESIGN.md 8.10)', include_trees=list(TREES), free_line_chars=W, canonicalize='both outcomes')
     chk.assumptions = ['file system stub: fsio::file::read_text_file = look-up in an immutable file table (Err for absent paths); Path::canonicalize = Err or the lexically normalised path; '
                        'PathBuf::from/parent/push/to_string_lossy lexical', 'include trees are case-split (8 shapes: middle, several files, nested dirs, same file twice, absolute, missing, '
                        'last line + parent dir, subdir-then-sibling, depth 3); every non-directive line is symbolic (arbitrary, possibly malformed)',
@@ -189,3 +204,150 @@ def main(tier, seed):
                        'outside: real file systems, symlinks, include cycles, non-UTF-8 files']
     results = chk.run()
     return chk.finish(results, 'every obligation is a solver query over all contents of the non-directive lines of an include tree')
+
+
+# ---------------------------------------------------------------------- lemmas: include trees of any shape, size and depth
+def job_include_lemmas(ctx, jr):
+    """include = paste, as lemmas about the four functions an include goes through, each with its callees replaced by arbitrary
+    results: the argument loop of the include directive (one iteration from an arbitrary list collected so far), the directive
+    dispatch, parse_file and parse_text_with_source_file. The line loop itself is the parse_lines lemma (props/line_lemmas.py)."""
+    from mirsym import induct
+    from .line_lemmas import job_parse_lines
+    jr.bounds = dict(includer_source=['none', 'm.ds', 'd/main.ds', '/abs/x.ds', 'd/e/c.ds'], written_path=['a.ds', 'e/c.ds', '../a.ds', '/abs/x.ds', '\\x.ds'],
+                     collected_so_far='0..2 arbitrary instructions', included_file='arbitrary result of parse_file (0..2 instructions or an error)', canonicalize='arbitrary result',
+                     claim='per-function lemmas; composition over an include tree is an induction on its depth (DESIGN.md 8.10)')
+    names = ctx.types.enums['types::error::ScriptError']
+    INS = 'types::instruction::Instruction'; IT = 'types::instruction::InstructionType'
+    def arb_instrs(e, tag, n=2): return V(e.fresh_int(tag + '.n', 0, n), [T([meta_new(e.fresh_int('%s%d.line' % (tag, i), 1, 99), mk_str('s%d' % i)), E(IT, 0, {0: []})], INS) for i in range(n)])
+    ek = names.index('MissingEndQuotes')
+    t_all = time.time()
+    # ---- 1. the argument loop of !include_files
+    for src in (None, 'm.ds', 'd/main.ds', '/abs/x.ds', 'd/e/c.ds'):
+        for written in ('a.ds', 'e/c.ds', '../a.ds', '/abs/x.ds', '\\x.ds'):
+            e = ctx.engine(unwind=3); t0 = time.time()
+            other = e.fresh_int('other_args', 0, 1)          # position of the examined argument among 1..2 arguments
+            argv = V(2, [mk_str(written), mk_str(written)])
+            meta = meta_new(e.fresh_int('meta.line', 1, 99), mk_str(src) if src is not None else None)
+            canon_ok = e.fresh_bool('canonicalize.ok'); canon_to = mk_str('/real/p.ds')
+            pk = e.fresh_int('parse_file.kind', 0, 1); got = arb_instrs(e, 'included'); eline = e.fresh_int('err.line', 1, 99)
+            errv = E('types::error::ScriptError', ek, {ek: [meta_new(eline)]})
+            calls = {'canon': [], 'parse': []}
+
+            def h_canon(eng, st1, a, callee):
+                calls['canon'].append((st1.g, a[0] if isinstance(a[0], S) else eng.deref(st1, a[0])))
+                return E(RESULT, zite(canon_ok, 0, 1), {0: [canon_to], 1: [Opaque('io::Error')]})
+
+            def h_parse(eng, st1, a, callee):
+                calls['parse'].append((st1.g, a[0] if isinstance(a[0], S) else eng.deref(st1, a[0])))
+                return E(RESULT, zite(pk == 1, 1, 0), {0: [got], 1: [errv]})
+            e.hooks['std::path::Path::canonicalize'] = h_canon; e.hooks['parser::parse_file'] = h_parse
+            st = State(True, {(0, 'meta'): meta, (0, 'args'): some(argv)})
+            fr = induct.capture(e, 'core', 'preprocessor::include_files_preprocessor::run', [P(0, 'args'), P(0, 'meta')], st)
+            fr.require(['instructions', 'iter'])
+            it0 = fr.get(fr.st, 'iter')
+            obs = [(fr.st.g, zand(zeq(fr.get(fr.st, 'instructions').len, 0), zeq(it0.f[1], 0)), 'entry: nothing collected, first argument')]
+            IV = arb_instrs(e, 'collected')
+            k = e.fresh_int('k', 0, 2)
+            calls['canon'].clear(); calls['parse'].clear()
+            st1 = fr.state(True, instructions=IV, iter=T([it0.f[0], k] + list(it0.f[2:]), it0.ty))
+            exits, back = fr.step(st1)
+            goes_on = back.g if back is not None else False
+            more = k < 2
+            # the path the property prescribes
+            if written.startswith('/') or written.startswith('\\'): joined = None; want = mk_str(written)
+            elif src is None: joined = None; want = mk_str(written)
+            else:
+                d = posixpath.dirname(src)
+                joined = (d + '/' + written) if d not in ('', '/') else (d + written)
+                want = merge(canon_ok, canon_to, mk_str(joined))
+            obs.append((zand(more, pk == 0), goes_on, 'a readable file: the loop goes on')); obs.append((zor(znot(more), pk == 1), znot(goes_on), 'end of the arguments or an unreadable / malformed file: the loop ends'))
+            obs.append((more, zor(*[g_ for g_, _ in calls['parse']]) if calls['parse'] else False, 'every argument is parsed as a file'))
+            for g_, pth in calls['parse']: obs.append((g_, zand(more, str_eq(pth, want)), 'the file is looked up relative to the directory of the including file (absolute paths and text without source: as written); canonical form when available'))
+            for g_, pth in calls['canon']: obs.append((g_, str_eq(pth, mk_str(joined)) if joined is not None else False, 'only a joined relative path is canonicalised'))
+            if back is not None:
+                iv2 = fr.get(back, 'instructions')
+                exp = V(IV.len + got.len, [sel_ins(IV, got, i) for i in range(4)])
+                obs.append((back.g, zand(zeq(iv2.len, IV.len + got.len), *[zimp(i < iv2.len, deep_eq(iv2.it[i], exp.it[i])) for i in range(min(4, len(iv2.it)))], zeq(fr.get(back, 'iter').f[1], k + 1)),
+                            'the instructions of the included file are appended, in order and unchanged, to what was collected'))
+            for rs, rv in fr.returns(exits):
+                obs.append((zand(rs.g, znot(more)), zand(zeq(rv.d, 0), deep_eq(rv.p[0][0], IV)) if 0 in rv.p else False, 'end: exactly the collected instructions'))
+                obs.append((zand(rs.g, more, pk == 1), zand(zeq(rv.d, 1), zeq(rv.p[1][0].d, ek), zeq(rv.p[1][0].p[ek][0].f[0].p[1][0], eline)) if 1 in rv.p and ek in rv.p[1][0].p else False,
+                            'an error of the included file is passed on unchanged'))
+            for g, cnd, msg in obs: e.obligations.append(Obligation(g, cnd, 'C14 include-loop lemma (%s includes %s): %s' % (src, written, msg), 'assert', 'oracle'))
+            jr.symex_time += time.time() - t0
+
+            def extract(m, o=None, src=src, written=written): return dict(kind='lemma', fn='include_files', source=src, written=written)
+            res = discharge_known(e, jr, PID, {}, extract)
+            H.finish_job(jr, e, res)
+    # ---- 2. directive dispatch, parse_file, parse_text_with_source_file (straight-line)
+    e = ctx.engine(unwind=3); t0 = time.time()
+    ck = e.fresh_int('command', 0, 3)       # include_files | print | other | none
+    cmd_o = E(OPTION, zite(ck == 3, 0, 1), {0: [], 1: [merge(ck == 0, mk_str('include_files'), merge(ck == 1, mk_str('print'), mk_str('includefiles')))]})
+    args_o = some(V(1, [mk_str('a.ds')]))
+    line = e.fresh_int('meta.line', 1, 99); meta = meta_new(line, mk_str('d/main.ds'))
+    kind = e.fresh_int('kind', 0, 2)
+    ins = T([meta, E(IT, kind, {0: [], 1: [T([cmd_o, args_o], 'types::instruction::PreProcessInstruction')], 2: [T([none(), none(), some(mk_str('c')), none()], 'types::instruction::ScriptInstruction')]})], INS)
+    rk = e.fresh_bool('include.err'); got = arb_instrs(e, 'included'); errv = E('types::error::ScriptError', ek, {ek: [meta_new(7)]})
+    calls = []
+    def h_inc(eng, st1, a, callee):
+        calls.append((st1.g, eng.deref(st1, a[0]), eng.deref(st1, a[1]))); return E(RESULT, zite(rk, 1, 0), {0: [got], 1: [errv]})
+    e.hooks['preprocessor::include_files_preprocessor::run'] = h_inc
+    e.hooks['preprocessor::print_preprocessor::run'] = lambda eng, st1, a, callee: UNIT
+    st = State(True, {(0, 'ins'): ins})
+    rs, rv = e.run('core', 'preprocessor::run', [P(0, 'ins')], st)
+    isp = zeq(kind, 1)
+    obs = [(zand(rs.g, znot(isp)), zand(zeq(rv.d, 0), zeq(rv.p[0][0].len, 0)) if 0 in rv.p else False, 'only directives add instructions'),
+           (zand(rs.g, isp, ck == 1), zand(zeq(rv.d, 0), zeq(rv.p[0][0].len, 0)) if 0 in rv.p else False, 'print adds nothing'),
+           (zand(rs.g, isp, ck == 0), deep_eq(rv, E(RESULT, zite(rk, 1, 0), {0: [got], 1: [errv]})), 'include_files: the result of the include is passed on unchanged'),
+           (zand(isp, ck == 0), zor(*[g_ for g_, _, _ in calls]) if calls else False, 'include_files runs the include')]
+    for g_, a0, m0 in calls: obs.append((g_, zand(isp, ck == 0, deep_eq(a0, args_o), deep_eq(m0, meta)), 'the include gets the arguments and the position (source!) of the directive'))
+    for kk, nm in ((2, 'UnknownPreProcessorCommand'), (3, 'PreProcessNoCommandFound')):
+        ki = names.index(nm)
+        obs.append((zand(rs.g, isp, ck == kk), zand(zeq(rv.d, 1), zeq(rv.p[1][0].d, ki), zeq(rv.p[1][0].p[ki][0].f[0].p[1][0], line)) if 1 in rv.p and ki in rv.p[1][0].p else False, '%s carries the line of the directive' % nm))
+    for g, cnd, msg in obs: e.obligations.append(Obligation(g, cnd, 'C14 directive-dispatch lemma: %s' % msg, 'assert', 'oracle'))
+    res = discharge_known(e, jr, PID, {}, lambda m, o=None: dict(kind='lemma', fn='preprocessor::run'))
+    jr.symex_time += time.time() - t0; H.finish_job(jr, e, res)
+    # parse_file / parse_text_with_source_file
+    e = ctx.engine(unwind=3); t0 = time.time()
+    path = H.sym_str(e, 'path', 6); text = H.sym_str(e, 'text', 4)
+    rd = e.fresh_bool('read.err'); pr = e.fresh_bool('parse.err'); got = arb_instrs(e, 'parsed'); errv = E('types::error::ScriptError', ek, {ek: [meta_new(7)]})
+    calls = {'read': [], 'parse': [], 'lines': []}
+    def h_read(eng, st1, a, callee):
+        calls['read'].append((st1.g, a[0] if isinstance(a[0], S) else eng.deref(st1, a[0]))); return E(RESULT, zite(rd, 1, 0), {0: [text], 1: [Opaque('FsIOError')]})
+    def h_pt(eng, st1, a, callee):
+        calls['parse'].append((st1.g, a[0] if isinstance(a[0], S) else eng.deref(st1, a[0]), a[1] if isinstance(a[1], S) else eng.deref(st1, a[1])))
+        return E(RESULT, zite(pr, 1, 0), {0: [got], 1: [errv]})
+    e.hooks['re:fsio::file::read_text_file::<.*>'] = h_read; e.hooks['parser::parse_text_with_source_file'] = h_pt
+    rs, rv = e.run('core', 'parser::parse_file', [path], State(True, {}))
+    kerr = names.index('ErrorReadingFile')
+    obs = [(True, len(calls['read']) == 1, 'the file is read once')]
+    for g_, p_ in calls['read']: obs.append((g_, str_eq(p_, path), 'the file read is the one asked for'))
+    for g_, t_, p_ in calls['parse']: obs.append((g_, zand(znot(rd), str_eq(t_, text), str_eq(p_, path)), 'its text is parsed with its own path as source'))
+    obs.append((znot(rd), zor(*[g_ for g_, _, _ in calls['parse']]) if calls['parse'] else False, 'a readable file is parsed'))
+    obs.append((zand(rs.g, rd), zand(zeq(rv.d, 1), zeq(rv.p[1][0].d, kerr), str_eq(rv.p[1][0].p[kerr][0], path)) if 1 in rv.p and kerr in rv.p[1][0].p else False, 'an unreadable file fails the parse with its path'))
+    obs.append((zand(rs.g, znot(rd)), deep_eq(rv, E(RESULT, zite(pr, 1, 0), {0: [got], 1: [errv]})), 'the result of parsing the text is passed on unchanged'))
+    for g, cnd, msg in obs: e.obligations.append(Obligation(g, cnd, 'C14 parse_file lemma: %s' % msg, 'assert', 'oracle'))
+    res = discharge_known(e, jr, PID, {}, lambda m, o=None: dict(kind='lemma', fn='parse_file'))
+    jr.symex_time += time.time() - t0; H.finish_job(jr, e, res)
+    e = ctx.engine(unwind=3); t0 = time.time()
+    path = H.sym_str(e, 'path', 6); text = H.sym_str(e, 'text', 4)
+    pr = e.fresh_bool('parse.err'); got = arb_instrs(e, 'parsed'); errv = E('types::error::ScriptError', ek, {ek: [meta_new(7)]})
+    calls = []
+    def h_lines(eng, st1, a, callee):
+        calls.append((st1.g, a[0] if isinstance(a[0], S) else eng.deref(st1, a[0]), a[1])); return E(RESULT, zite(pr, 1, 0), {0: [got], 1: [errv]})
+    e.hooks['parser::parse_lines'] = h_lines
+    rs, rv = e.run('core', 'parser::parse_text_with_source_file', [text, path], State(True, {}))
+    obs = [(True, len(calls) == 1, 'the lines are parsed once')]
+    for g_, t_, m_ in calls: obs.append((g_, zand(str_eq(t_, text), zeq(m_.f[0].d, 0), zeq(m_.f[1].d, 1), str_eq(m_.f[1].p[1][0], path) if 1 in m_.f[1].p else False), 'every line of the text gets the file as its source (line numbers start afresh)'))
+    obs.append((rs.g, deep_eq(rv, E(RESULT, zite(pr, 1, 0), {0: [got], 1: [errv]})), 'the result is passed on unchanged'))
+    for g, cnd, msg in obs: e.obligations.append(Obligation(g, cnd, 'C14 parse_text_with_source_file lemma: %s' % msg, 'assert', 'oracle'))
+    res = discharge_known(e, jr, PID, {}, lambda m, o=None: dict(kind='lemma', fn='parse_text_with_source_file'))
+    jr.symex_time += time.time() - t0; H.finish_job(jr, e, res)
+
+
+def sel_ins(a, b, i):
+    """item i (concrete) of the concatenation a ++ b (symbolic lengths)"""
+    r = b.it[-1] if b.it else a.it[-1]
+    for j in range(len(b.it) - 2, -1, -1): r = merge(zeq(i - a.len, j), b.it[j], r)
+    if i < len(a.it): r = merge(i < a.len, a.it[i], r)
+    return r
